@@ -2495,7 +2495,7 @@ impl Formatter {
   pub fn dot_int(&mut self, node: &RealNumber) -> String {
     let node_str = match node {
       RealNumber::Integer(tkn) => tkn.to_string(),
-      _ => "".to_string(),
+      other => self.real_number(other),
     };
     if self.html {
       format!(".<span class=\"mech-dot-int\">{}</span>",node_str)
@@ -3033,8 +3033,8 @@ pub fn matrix_column_elements(&mut self, column_elements: &[&MatrixColumn]) -> S
       SetOp::Intersection => "∩".to_string(),
       SetOp::Difference => "∖".to_string(),
       SetOp::Complement => "∁".to_string(),
-      SetOp::Subset => "⊂".to_string(),
-      SetOp::Superset => "⊃".to_string(),
+      SetOp::Subset => "⊆".to_string(),
+      SetOp::Superset => "⊇".to_string(),
       SetOp::ProperSubset => "⊊".to_string(),
       SetOp::ProperSuperset => "⊋".to_string(),
       SetOp::ElementOf => "∈".to_string(),
@@ -3068,7 +3068,7 @@ pub fn matrix_column_elements(&mut self, column_elements: &[&MatrixColumn]) -> S
     match node {
       VecOp::MatMul => "**".to_string(),
       VecOp::Solve => "\\".to_string(),
-      VecOp::Cross => "×".to_string(),
+      VecOp::Cross => "⨯".to_string(),
       VecOp::Dot => "·".to_string(),
     }
   }
@@ -3077,7 +3077,7 @@ pub fn matrix_column_elements(&mut self, column_elements: &[&MatrixColumn]) -> S
     match node {
       ComparisonOp::Equal => "⩵".to_string(),
       ComparisonOp::StrictEqual => "=:=".to_string(),
-      ComparisonOp::StrictNotEqual => "=/=".to_string(),
+      ComparisonOp::StrictNotEqual => "=!=".to_string(),
       ComparisonOp::NotEqual => "≠".to_string(),
       ComparisonOp::GreaterThan => ">".to_string(),
       ComparisonOp::GreaterThanEqual => "≥".to_string(),
